@@ -32,9 +32,10 @@ func configOf(i int) config {
 func TestRandom(t *testing.T) {
 	traces := common.EnvInt("VERIF_N", 20)
 	steps := common.EnvInt("VERIF_STEPS", 60)
+	first := common.EnvInt("VERIF_FIRST", 0) // batches: traces first .. first+N-1
 	tr := common.NewTrace("trace.ndjson")
 	defer tr.Close()
-	for i := 0; i < traces; i++ {
+	for i := first; i < first+traces; i++ {
 		cfg := configOf(i)
 		w := newWorld(tr, cfg.alloc, cfg.ci, cfg.hid, cfg.shuffle)
 		g := &gen{w: w, rng: common.Rand(int64(i))}
